@@ -63,5 +63,48 @@ TE.TIES['ling'] = {
                                 ("def parse_language(s):\n", "def parse_language(s):\n    '''locale name -> Language'''\n")),
   }}
 
+GT = 'lib/gettext.py'
+ZONE = ("    if (zhour is not None) and (zminute is not None):\n        zone = zhour + zminute\n    elif zabbr is not None:\n        try:\n            [zone] = _timezones[zabbr]\n"
+        "        except ValueError:\n            raise DateSyntaxError('ambiguous timezone abbreviation: ' + zabbr)\n    elif tz_hint is not None:\n        zone = tz_hint\n    else:\n        raise DateSyntaxError\n")
+TE.TIES['gettextdate'] = {
+  'translators': ['gettextdate'], 'module': 'I18n.Props.C18Tie', 'tests': ['tests/test_gettext.py'],
+  'edits': {
+   'seeded/C18-a': seeded('C18-a'),
+   'strip-dropped': ed(GT, ("    s = s.strip()\n    if _search_for_date_boilerplate(s):", "    if _search_for_date_boilerplate(s):")),
+   'boilerplate-check-dropped': ed(GT, ("    if _search_for_date_boilerplate(s):\n        raise BoilerplateDate\n", "")),
+   'boilerplate-error-class': ed(GT, ("    if _search_for_date_boilerplate(s):\n        raise BoilerplateDate\n", "    if _search_for_date_boilerplate(s):\n        raise DateSyntaxError\n")),
+   'hint-fullmatch-dropped': ed(GT, ("        if not re.fullmatch('[+-][0-9]{4}', tz_hint):\n            raise ValueError(f'invalid timezone hint: {tz_hint!r}')\n", "")),
+   'hint-strptime-dropped': ed(GT, ("        datetime.datetime.strptime(tz_hint, '%z')  # just check syntax\n", "")),
+   'hint-pattern-longer': ed(GT, ("re.fullmatch('[+-][0-9]{4}', tz_hint)", "re.fullmatch('[+-][0-9]{4,}', tz_hint)")),
+   'hint-error-class': ed(GT, ("            raise ValueError(f'invalid timezone hint: {tz_hint!r}')", "            raise DateSyntaxError(f'invalid timezone hint: {tz_hint!r}')")),
+   'zone-minutes-first': ed(GT, ("        zone = zhour + zminute", "        zone = zminute + zhour")),
+   'zone-only-hour-tested': ed(GT, ("    if (zhour is not None) and (zminute is not None):", "    if zhour is not None:")),
+   'hint-before-abbreviation': ed(GT, (ZONE, "    if (zhour is not None) and (zminute is not None):\n        zone = zhour + zminute\n    elif tz_hint is not None:\n        zone = tz_hint\n    elif zabbr is not None:\n        try:\n            [zone] = _timezones[zabbr]\n"
+        "        except ValueError:\n            raise DateSyntaxError('ambiguous timezone abbreviation: ' + zabbr)\n    else:\n        raise DateSyntaxError\n")),
+   'ambiguous-abbreviation-first-offset': ed(GT, ("            [zone] = _timezones[zabbr]", "            zone = _timezones[zabbr][0]")),
+   'ambiguous-abbreviation-error-class': ed(GT, ("            raise DateSyntaxError('ambiguous timezone abbreviation: ' + zabbr)", "            raise BoilerplateDate('ambiguous timezone abbreviation: ' + zabbr)")),
+   'no-zone-defaults-to-utc': ed(GT, ("        zone = tz_hint\n    else:\n        raise DateSyntaxError\n", "        zone = tz_hint\n    else:\n        zone = '+0000'\n")),
+   'no-match-error-class': ed(GT, ("    if match is None:\n        raise DateSyntaxError\n    (date, time", "    if match is None:\n        raise BoilerplateDate\n    (date, time")),
+   'assembly-T': ed(GT, ("    s = f'{date} {time}{zone}'", "    s = f'{date}T{time}{zone}'")),
+   'groups-date-time-swapped': ed(GT, ("    (date, time, zhour, zminute, zabbr) = match.groups()", "    (time, date, zhour, zminute, zabbr) = match.groups()")),
+   'calendar-check-dropped': ed(GT, ("    parse_date(s)  # just check syntax\n", "")),
+   'parse-date-format-seconds': ed(GT, ("strptime(s, '%Y-%m-%d %H:%M%z')", "strptime(s, '%Y-%m-%d %H:%M:%S%z')")),
+   'parse-date-error-class': ed(GT, ("        raise DateSyntaxError(exc)", "        raise ValueError(exc)")),
+   'parse-date-error-swallowed': ed(GT, ("    except ValueError as exc:\n        raise DateSyntaxError(exc)", "    except ValueError as exc:\n        return None")),
+   # behaviour-preserving
+   'bp-rename-locals': ed(GT, ("    match = _parse_date(s)\n    if match is None:\n        raise DateSyntaxError\n    (date, time, zhour, zminute, zabbr) = match.groups()\n" + ZONE + "    s = f'{date} {time}{zone}'\n",
+                               "    m = _parse_date(s)\n    if m is None:\n        raise DateSyntaxError\n    (d, t, zh, zm, za) = m.groups()\n" +
+                               ZONE.replace('zhour', 'zh').replace('zminute', 'zm').replace('zabbr', 'za').replace('zone', 'z').replace('_timezs', '_timezones').replace('timez ', 'timezone ') + "    s = f'{d} {t}{z}'\n")),
+   'bp-match-before-hint-check': ed(GT, ("    if tz_hint is not None:\n        if not re.fullmatch", "    match = _parse_date(s)\n    if tz_hint is not None:\n        if not re.fullmatch"),
+                                         ("        datetime.datetime.strptime(tz_hint, '%z')  # just check syntax\n    match = _parse_date(s)\n", "        datetime.datetime.strptime(tz_hint, '%z')  # just check syntax\n")),
+   'bp-flip-tests': ed(GT, ("    if (zhour is not None) and (zminute is not None):", "    if (zminute is not None) and (zhour is not None):"), ("    assert len(s) == 21, f'len({s!r}) != 21'", "    assert 21 == len(s), f'len({s!r}) != 21'")),
+   'bp-split-helper': ed(GT, ("def fix_date_format(s, *, tz_hint=None):", "def _resolve_zone(zhour, zminute, zabbr, tz_hint):\n" + ZONE + "    return zone\n\ndef fix_date_format(s, *, tz_hint=None):"),
+                              ("    (date, time, zhour, zminute, zabbr) = match.groups()\n" + ZONE, "    (date, time, zhour, zminute, zabbr) = match.groups()\n    zone = _resolve_zone(zhour, zminute, zabbr, tz_hint)\n")),
+   'bp-elif-to-nested-if': ed(GT, ("    elif tz_hint is not None:\n        zone = tz_hint\n    else:\n        raise DateSyntaxError\n    s = f", "    else:\n        if tz_hint is not None:\n            zone = tz_hint\n        else:\n            raise DateSyntaxError\n    s = f")),
+   'bp-concatenation': ed(GT, ("    s = f'{date} {time}{zone}'", "    s = date + ' ' + time + zone")),
+   'bp-comments-docstrings': ed(GT, ("def fix_date_format(s, *, tz_hint=None):\n", "def fix_date_format(s, *, tz_hint=None):\n    '''normalise a date header value'''\n    # white space first:\n"),
+                                    ("def parse_date(s):\n", "def parse_date(s):\n    '''canonical text -> aware datetime'''\n")),
+  }}
+
 if __name__ == '__main__':
     TE.main()
